@@ -438,6 +438,10 @@ func c12Dec(c *fw.Ctx, i int) {
 			c.Fail("C12/decoder/payload-differs", fmt.Sprintf("returned %d bytes, %d follow the descriptor", len(body), plen), wit)
 			return
 		}
+		if head := (&codecs.VP9Packet{}).IsPartitionHead(in); head != d.B {
+			c.Fail("C12/ispartitionhead/differs-from-b-bit", fmt.Sprintf("IsPartitionHead = %v for a descriptor with B=%v (first octet %#02x)", head, d.B, in[0]), wit)
+			return
+		}
 		c.Count("descriptors_decoded_exactly", 1)
 	}
 	// truncations strictly inside the descriptor must be rejected (and never panic)
